@@ -338,6 +338,153 @@ func checkC03(c *km.Ctx) {
 	if nCalls < 1 {
 		r.AnchorLost("R-C03-1", sprintf("issuing calls in certGenHandler (found %d)", nCalls))
 	}
+	// the certificate a request is answered with is the one signed for it, under its own bounds: the result of the
+	// issuing call is never merged with a certificate of another origin (one remembered from an earlier request was
+	// bounded by that request's duration and session)
+	{
+		nIssue := 0
+		for _, f := range c.P.AllFuncs {
+			if f.Pkg == nil || !pkgIsKMD(f.Pkg) {
+				continue
+			}
+			for _, ci := range km.CallsIn(f) {
+				cl, isCall := ci.(*ssa.Call)
+				if !isCall {
+					continue
+				}
+				switch km.CalleeFull(cl.Common()) {
+				case certgenPkg + ".GenSSHCertFileString", certgenPkg + ".GenUserX509Cert", certgenPkg + ".GenIPRestrictedX509Cert":
+				default:
+					continue
+				}
+				nIssue++
+				foreign := ""
+				for _, ref := range *cl.Referrers() {
+					ex, ok := ref.(*ssa.Extract)
+					if !ok || isErrorType(ex.Type()) {
+						continue
+					}
+					for _, r2 := range *ex.Referrers() {
+						ph, isPh := r2.(*ssa.Phi)
+						if !isPh {
+							continue
+						}
+						for _, e := range ph.Edges {
+							e = km.Unwrap(e)
+							if e == ssa.Value(ex) || e == ssa.Value(ph) {
+								continue
+							}
+							if cst, isC := e.(*ssa.Const); isC && (cst.Value == nil || km.ValStr(cst) == `""`) {
+								continue // the zero value of a declaration
+							}
+							if oc, oi := callRes(e); oc != nil && km.CalleeFull(oc.Common()) == km.CalleeFull(cl.Common()) && oi == ex.Index {
+								continue // another issuing call of the same kind
+							}
+							foreign = clipS(km.ValStr(e), 80) + " at " + posOf(c, ph)
+						}
+					}
+				}
+				found := "the issued certificate is used as issued"
+				if foreign != "" {
+					found = "merged with " + foreign
+				}
+				r.Add("R-C03-2", km.FuncName(f), "the certificate handed out is the one signed for this request", posOf(c, cl), "the results of the issuing call are not merged with values of another origin", found, foreign == "")
+			}
+		}
+		if nIssue == 0 {
+			r.AnchorLost("R-C03-2", "issuing library calls in cmd/keymasterd")
+		}
+	}
+	// "not beyond the duration the client asked for": the parsed request value is not only validated, it is what
+	// the issuers are handed (a value parsed into a variable that shadows the one passed on is checked and dropped)
+	{
+		nParse := 0
+		for _, f := range callsWithNewHelpersFuncs(c, h, 2) {
+			for _, ci := range km.CallsIn(f) {
+				cl, isCall := ci.(*ssa.Call)
+				if !isCall || km.CalleeFull(cl.Common()) != "time.ParseDuration" {
+					continue
+				}
+				nParse++
+				reached := ""
+				seen := map[ssa.Value]bool{}
+				var flow func(v ssa.Value, d int)
+				flow = func(v ssa.Value, d int) {
+					if seen[v] || d > 8 || reached != "" || v.Referrers() == nil {
+						return
+					}
+					seen[v] = true
+					for _, ref := range *v.Referrers() {
+						switch x := ref.(type) {
+						case *ssa.Phi, *ssa.Convert, *ssa.ChangeType:
+							flow(x.(ssa.Value), d+1)
+						case *ssa.Store:
+							if x.Val != v {
+								continue
+							}
+							// a local cell or a field of a local record: every load of it
+							switch a := x.Addr.(type) {
+							case *ssa.Alloc:
+								for _, r2 := range *a.Referrers() {
+									if ld, isLd := r2.(*ssa.UnOp); isLd {
+										flow(ld, d+1)
+									}
+								}
+							case *ssa.FieldAddr:
+								if al, isAl := a.X.(*ssa.Alloc); isAl {
+									for _, r2 := range *al.Referrers() {
+										if f2, isF := r2.(*ssa.FieldAddr); isF && f2.Field == a.Field {
+											for _, r3 := range *f2.Referrers() {
+												if ld, isLd := r3.(*ssa.UnOp); isLd {
+													flow(ld, d+1)
+												}
+											}
+										}
+										if ld, isLd := r2.(*ssa.UnOp); isLd {
+											flow(ld, d+1) // the record passed on whole
+										}
+									}
+								}
+							}
+						case ssa.CallInstruction:
+							cc := x.Common()
+							if b, isB := cc.Value.(*ssa.Builtin); isB && (b.Name() == "min" || b.Name() == "max") {
+								if val, isV := x.(ssa.Value); isV {
+									flow(val, d+1)
+								}
+								continue
+							}
+							g := km.StaticCallee(cc)
+							if g == nil || !c.InModule(g) {
+								continue
+							}
+							for i, a := range cc.Args {
+								if a != v {
+									continue
+								}
+								if km.NamedTypeOf(a.Type()) == "time.Duration" || i < len(g.Params) && len(g.Blocks) > 0 {
+									reached = km.NameOf(g)
+								}
+							}
+						}
+					}
+				}
+				for _, ref := range *cl.Referrers() {
+					if ex, ok := ref.(*ssa.Extract); ok && ex.Index == 0 {
+						flow(ex, 0)
+					}
+				}
+				found := "handed to " + reached
+				if reached == "" {
+					found = "the parsed value is tested but never handed on"
+				}
+				r.Add("R-C03-1", km.FuncName(f), "the requested duration is the one that is used", posOf(c, ci), "the value parsed from the request's duration reaches an issuing (module) function as its duration", found, reached != "")
+			}
+		}
+		if nParse == 0 {
+			r.AnchorLost("R-C03-1", "time.ParseDuration of the request's duration")
+		}
+	}
 	// the issuing helpers pass their duration parameter through unchanged
 	for _, name := range []string{"(*RuntimeState).postAuthSSHCertHandler", "(*RuntimeState).postAuthX509CertHandler"} {
 		fn := c.MustFunc("R-C03-1", "cmd/keymasterd", name)
